@@ -561,6 +561,14 @@ def _compute_constraints_of_bound_function(expression):
         value = expression.function.args[0].type.integer.minimum_value
     else:
         assert False, "Non-bound function"
+    if _is_infinite(value):
+        # The argument is unbounded (which the constraints check will report), so
+        # its bound is not an integer constant that later arithmetic could use.
+        expression.type.integer.minimum_value = "-infinity"
+        expression.type.integer.maximum_value = "infinity"
+        expression.type.integer.modular_value = "0"
+        expression.type.integer.modulus = "1"
+        return
     expression.type.integer.minimum_value = value
     expression.type.integer.maximum_value = value
     expression.type.integer.modular_value = value
